@@ -19,6 +19,7 @@ import NR.Links
 import NR.RangeCheck
 import NR.Sched
 import NR.Mix
+import NR.Front
 namespace NR.Driver
 open NR
 
@@ -488,8 +489,19 @@ def stepMix (ws : List String) : String :=
     | _, _, _ => "bad-op"
   | _ => "bad-op"
 
+/-- `front ids <vehicle ids csv> <ids of matrix 1 separated by . | ids of matrix 2 | …>` (`-` = a matrix without ids):
+does `validateTimeDependentMatricesAndIDs` accept the assignment of matrices to vehicles (NR.Front.validateIds). -/
+def stepFront (ws : List String) : String :=
+  match ws with
+  | ["ids", vs, mats] =>
+    let vehicles := vs.splitOn ","
+    let ms := (mats.splitOn "|").map (fun m => if m = "-" then [] else m.splitOn ".")
+    "front ids " ++ (if Front.validateIds vehicles ms then "accept" else "reject")
+  | _ => "bad-op"
+
 def step (st : State) (line : String) : State × String :=
   match words line with
+  | "front" :: ws => (st, stepFront ws)
   | "mix" :: ws => (st, stepMix ws)
   | "hyp" :: ws => (st, stepHyp st.inst ws)
   | "eng" :: ws => let (e, o) := stepEng st.inst st.eng ws; ({ st with eng := e }, o)
